@@ -101,10 +101,21 @@ func spellingOf(f *ast.Field, name string) (hx.Sexp, string, bool) {
 
 // connRawParts renders `(decls …) (given …) FS LS` for the first / last arguments of f; ok=false when
 // something is outside the Lean model's vocabulary (the caller then falls back to its own reading).
-func connRawParts(f *ast.Field, raw *rawReq) ([]hx.Sexp, bool) {
+// why a connection field could not be sent as its raw spelling (distribution)
+var rawFallbackWhy = map[string]int{}
+
+func connRawParts(f *ast.Field, raw *rawReq) (parts []hx.Sexp, ok bool) {
+	why := ""
+	defer func() {
+		if !ok {
+			rawFallbackWhy[why]++
+		}
+	}()
+	why = "no operation chosen"
 	if raw == nil {
 		return nil, false
 	}
+	why = "literal or variable outside the vocabulary"
 	fs, fv, ok1 := spellingOf(f, "first")
 	ls, lv, ok2 := spellingOf(f, "last")
 	if !ok1 || !ok2 {
@@ -126,6 +137,7 @@ func connRawParts(f *ast.Field, raw *rawReq) ([]hx.Sexp, bool) {
 	for _, v := range names {
 		d, declared := raw.decls[v]
 		if !declared || !d.ok {
+			why = "variable declared in another operation, or not a plain Int variable"
 			return nil, false
 		}
 		decls = append(decls, hx.N("d", hx.A(v), hx.B(d.nonNull), hx.A(d.dflt)))
@@ -139,6 +151,7 @@ func connRawParts(f *ast.Field, raw *rawReq) ([]hx.Sexp, bool) {
 				}
 				given = append(given, hx.N("g", hx.A(v), hx.A(g.Text)))
 			default: // a float, string or boolean given for an Int variable: C05's business, not modelled
+				why = "float / string / boolean value given for an Int variable"
 				return nil, false
 			}
 		}
